@@ -114,7 +114,7 @@ def r1(ctx):
     if good:
         t_call = iso_true[3] if iso_true[2] == 'call' else None
         f_call = iso_false[3] if iso_false[2] == 'call' else None
-        good = t_call is not None and backslice(b, [t_call.args[0]] if t_call.args else []).has_call(r'GroupConfig::(input_paths|root_paths)$') or (t_call is not None and t_call.matches(r'GroupConfig::(root_paths)$'))
+        good = t_call is not None and backslice(b, [t_call.args[0]] if t_call.args else []).has_call(r'GroupConfig::(input_paths\w*|root_paths)$') or (t_call is not None and t_call.matches(r'GroupConfig::(root_paths)$'))
         good = good and f_call is not None and f_call.matches(r'Vec::<T>::new$|Vec<.*>::new$')
     ctx.check(bool(good), rule, P + '|root_paths', b.where(s['line']), 'root_paths = input roots iff --isolate, else empty', 'root_paths is not (isolate ? input roots : empty)')
 
